@@ -298,14 +298,136 @@ impl Part for FuzzInput {
     }
 }
 
+// ---- deep / long requests on a small stack (the HTTP server runs each connection on its own thread) ----
+
+#[derive(Clone, Debug, Serialize, Deserialize)]
+struct DeepCase {
+    kind: String,
+    n: usize,
+}
+
+fn deep_request(kind: &str, n: usize) -> String {
+    match kind {
+        "group" => format!("SELECT * WHERE {}?s ?p ?o{}", "{".repeat(n), "}".repeat(n)),
+        "filter_paren" => format!("SELECT * WHERE {{ ?s ?p ?o FILTER({}?o > 1{}) }}", "(".repeat(n), ")".repeat(n)),
+        "filter_not" => format!("SELECT * WHERE {{ ?s ?p ?o FILTER({}?o = 1) }}", "!".repeat(n)),
+        "filter_minus" => format!("SELECT * WHERE {{ ?s ?p ?o FILTER(?o > {}1) }}", "-".repeat(n)),
+        "subselect" => format!("SELECT * WHERE {{ {}?s ?p ?o{} }}", "{ SELECT * WHERE { ".repeat(n), " } }".repeat(n)),
+        "update_where_not" => format!("DELETE {{ ?s ?p ?o }} WHERE {{ ?s ?p ?o FILTER({}?o = 1) }}", "!".repeat(n)),
+        "update_where_group" => format!("INSERT {{ ?s <http://e/p9> ?o }} WHERE {}?s ?p ?o{}", "{".repeat(n), "}".repeat(n)),
+        _ => String::new(),
+    }
+}
+
+/// Child mode: the three error-preserving entry points on a 2 MiB-stack thread; exit 0 = every one returned.
+fn child_deep(kind: &str, n: usize) -> i32 {
+    install_panic_hook();
+    let text = deep_request(kind, n);
+    let h = std::thread::Builder::new().stack_size(2 << 20).spawn(move || {
+        let mk = || {
+            let mut db = SparqlDatabase::new();
+            db.add_triple_parts("http://e/s0", "http://e/p0", "1");
+            db
+        };
+        let a = catch(|| execute_sparql_query(&text, &mut mk()).is_ok());
+        let b = catch(|| execute_sparql_update(&text, &mut mk()).is_ok());
+        let c = catch(|| mk().execute_update(&text).is_ok());
+        (a.is_err(), b.is_err(), c.is_err())
+    });
+    match h.map(|h| h.join()) {
+        Ok(Ok((pa, pb, pc))) => {
+            if pa || pb || pc {
+                3
+            } else {
+                0
+            }
+        }
+        _ => 4,
+    }
+}
+
+struct Deep;
+impl Part for Deep {
+    type Case = DeepCase;
+    fn name(&self) -> &'static str {
+        "deep-requests"
+    }
+    fn cases(&self, _: Tier) -> u32 {
+        0
+    }
+    fn strategy(&self, _: Tier) -> BoxedStrategy<DeepCase> {
+        Just(DeepCase { kind: "group".into(), n: 1 }).boxed()
+    }
+    fn check(&self, c: &DeepCase) -> Outcome {
+        use std::os::unix::process::ExitStatusExt;
+        let mut o = Outcome::new();
+        let Ok(exe) = std::env::current_exe() else {
+            o.skipped.push("child-unavailable");
+            return o;
+        };
+        let child = std::process::Command::new(exe).arg("--child-deep").arg(&c.kind).arg(c.n.to_string()).stdin(std::process::Stdio::null()).stdout(std::process::Stdio::null()).stderr(std::process::Stdio::piped()).spawn();
+        let Ok(mut child) = child else {
+            o.skipped.push("child-unavailable");
+            return o;
+        };
+        // bounded wait: a slow child is an infrastructure matter, never a violation
+        let t0 = std::time::Instant::now();
+        let status = loop {
+            match child.try_wait() {
+                Ok(Some(st)) => break Some(st),
+                Ok(None) => {
+                    if t0.elapsed().as_secs() > 240 {
+                        let _ = child.kill();
+                        let _ = child.wait();
+                        break None;
+                    }
+                    std::thread::sleep(std::time::Duration::from_millis(20));
+                }
+                Err(_) => break None,
+            }
+        };
+        let Some(status) = status else {
+            o.skipped.push("child-timeout");
+            return o;
+        };
+        let mut err = String::new();
+        use std::io::Read;
+        if let Some(mut e) = child.stderr.take() {
+            let _ = e.read_to_string(&mut err);
+        }
+        o.inner_evals += 3;
+        o.nontrivial = true;
+        let tail: String = err.trim().chars().rev().take(240).collect::<String>().chars().rev().collect();
+        if let Some(sig) = status.signal() {
+            o.fail(
+                format!("c17.total.process_died.{}", c.kind),
+                format!("a request with {} levels / repetitions of `{}` sent to the string entry points on a 2 MiB-stack thread killed the process (signal {sig}): {tail}", c.n, c.kind),
+            );
+            return o;
+        }
+        match status.code() {
+            Some(0) => {}
+            Some(3) => o.fail(format!("c17.total.panic.{}", c.kind), format!("an entry point panicked on a request with {} x `{}`: {tail}", c.n, c.kind)),
+            code => o.fail(format!("c17.total.child_abnormal_exit.{}", c.kind), format!("child exit {:?}: {tail}", code)),
+        }
+        o
+    }
+}
+
 fn main() {
+    {
+        let args: Vec<String> = std::env::args().collect();
+        if args.len() >= 4 && args[1] == "--child-deep" {
+            std::process::exit(child_deep(&args[2], args[3].parse().unwrap_or(1)));
+        }
+    }
     let mut s = Session::start(
         "C17",
         "exploration",
         "request strings x database states x entry points. Part `requests`: base requests = generated SELECTs of the C01 grammar, generated updates of all six forms (plus texts the strict path must reject, and legacy INSERT{}/DELETE{} aliases), RULE/REGISTER extension texts and garbage, \
          each with 0-3 mutations (multi-byte character inserted at a char boundary, ASCII delimiter inserted, char deleted, token duplicated, truncation, garbage appended), over generated datasets; every text is sent to execute_sparql_query, execute_sparql_update, SparqlDatabase::execute_update, handle_update, \
          execute_query_rayon_parallel2_volcano (SELECTs) and handle_http_request (GET ?query=, POST sparql-query, form query=/update=, sparql-update). Oracle: lexical snapshot (all quads + named-graph catalog) unchanged around every query-path call and around every Err/`Update Failed`; \
-         Err whenever parse_combined_query rejects the text or it is an update on the query path; Ok for unmutated generated SELECTs; no panic. Part `multibyte-sweep`: every char-boundary offset of 20 fixed corpus requests x 6 multi-byte characters (exhaustive). \
+         Err whenever parse_combined_query rejects the text or it is an update on the query path; Ok for unmutated generated SELECTs; no panic. Part `multibyte-sweep`: every char-boundary offset of the fixed corpus requests x 6 multi-byte characters (exhaustive). Part `deep-requests`: requests with 200 / 5 000 / 100 000 levels or repetitions of { ( ! - sub-SELECT (also in update WHERE clauses) sent to the three error-preserving entry points on a 2 MiB-stack thread of a child process, which must survive. \
          Non-trivial = rejected after a recognised leading keyword, or a well-formed update reaching the query path, or multi-byte text; inner_evaluations counts entry-point calls.",
     );
     s.assume("requests that would start neural training / Python (TRAIN NEURAL RELATION, ML.PREDICT execution) are not generated");
@@ -314,6 +436,13 @@ fn main() {
     let cases: Vec<SweepCase> = (0..n).flat_map(|i| (0..MB.len()).map(move |ch| SweepCase { corpus_index: i, ch })).collect();
     s.run_enum(&sweep, cases.into_iter(), true);
     s.run(&Requests);
+    let mut deep = vec![];
+    for kind in ["group", "filter_paren", "filter_not", "filter_minus", "subselect", "update_where_not", "update_where_group"] {
+        for n in [200usize, 5_000, 100_000] {
+            deep.push(DeepCase { kind: kind.into(), n });
+        }
+    }
+    s.run_enum(&Deep, deep.into_iter(), true);
     // saved fuzz inputs (seed corpus + crash artifacts) through the stable build, every run
     let saved: Vec<BytesCase> = kvh::fuzzrun::saved_inputs("request_total").into_iter().filter_map(|p| std::fs::read(&p).ok()).map(|b| BytesCase { bytes: b }).collect();
     if !saved.is_empty() {
